@@ -1,13 +1,13 @@
 SPECIFICATION Spec
 CONSTANTS
-  Cats = {1, 2, 3}
+  Cats = {0, 1, 2}
   Types = {1, 2}
   Langs = {0, 1, 2}
   Names = {0, 1, 2}
-  Feats = {1, 2, 3, 4}
+  Feats = {0, 1, 2, 3, 4}
   FTypes = {1, 2}
-  Vars = {1, 2, 3}
-  Vals = {1, 2, 3, 4}
+  Vars = {0, 1, 2, 3}
+  Vals = {0, 1, 2, 3, 4}
   MaxIds = 4
   MaxFeats = 6
   MaxFields = 3
